@@ -99,8 +99,8 @@ func (e engine) Execute(prop string, plan sim.Plan, seed uint64, res *sim.RunRes
 		panic(err)
 	}
 	vw := verifrt.NewWorld(seed, verifrt.OrderMode(p.Order))
-	vw.NewFS(filepath.Join(root, "state"))
-	w := &world{plan: p, prop: prop, seed: seed, res: res, vw: vw, root: root, rt: newRuntime(), everActive: map[string]bool{}}
+	fsw := vw.NewFS(filepath.Join(root, "state"))
+	w := &world{plan: p, prop: prop, seed: seed, res: res, vw: vw, root: root, rt: newRuntime(), everActive: map[string]bool{}, fsw: fsw}
 	w.setMemCapacity()
 	vw.SetRequest("boot")
 	if err := w.bootRecover(p.Cfg); err != nil {
@@ -161,7 +161,7 @@ func (w *world) runOps(or *oracles, skip map[int]bool, record map[int]string) in
 		if or != nil {
 			or.beforeRequest(&op)
 		}
-		rep := w.doOp(&op)
+		rep := w.doOpMaybeCrashing(&op)
 		if rep.skipped {
 			continue
 		}
